@@ -1,0 +1,92 @@
+// +build verif
+
+package rockredis
+
+import (
+	"github.com/youzan/ZanRedisDB/common"
+)
+
+// Verification hooks for the keylab engine (C12 key isolation / codecs, C13
+// cursor scans). Compiled only with -tags verif; add-only; nothing in here is
+// referenced by production code.
+//
+// The decoders in verif_export.go recover from panics and return an error.
+// The VerifRaw* aliases below do NOT recover: the caller wants to tell a
+// decoder panic from a decoder error (a panic on bytes that the write path
+// itself stored is a finding).
+
+func VerifRawDecodeDataTablePrefix(k []byte, dt byte) ([]byte, int, error) {
+	return decodeDataTablePrefixFromBuf(k, dt)
+}
+func VerifRawDecodeCollSubKey(k []byte) (byte, []byte, []byte, []byte, error) {
+	return decodeCollSubKey(k)
+}
+func VerifRawHDecodeHashKey(k []byte) ([]byte, []byte, []byte, error) { return hDecodeHashKey(k) }
+func VerifRawSDecodeSetKey(k []byte) ([]byte, []byte, []byte, error)  { return sDecodeSetKey(k) }
+func VerifRawZDecodeSetKey(k []byte) ([]byte, []byte, []byte, error)  { return zDecodeSetKey(k) }
+func VerifRawZDecodeScoreKey(k []byte) ([]byte, []byte, []byte, float64, error) {
+	return zDecodeScoreKey(k)
+}
+func VerifRawLDecodeListKey(k []byte) ([]byte, []byte, int64, error)  { return lDecodeListKey(k) }
+func VerifRawDecodeBitmapKey(k []byte) ([]byte, []byte, int64, error) { return decodeBitmapKey(k) }
+func VerifRawDecodeJSONKey(k []byte) ([]byte, []byte, error)          { return decodeJSONKey(k) }
+func VerifRawDecodeVerKey(vk []byte) ([]byte, int64, error)           { return decodeVerKey(vk) }
+func VerifRawConvertCollDBKeyToRawKey(k []byte) (byte, []byte, int64, error) {
+	return convertCollDBKeyToRawKey(k)
+}
+
+// ---- scan ranges (rockredis/scan.go, fullscan.go) ----
+
+// VerifGetDataStoreType maps a common.DataType to the engine type byte whose
+// keys SCAN/ADVSCAN enumerate (KVType or the meta/size type of a collection).
+func VerifGetDataStoreType(dt common.DataType) (byte, error) { return getDataStoreType(dt) }
+
+// VerifBuildScanKeyRange is the (open) engine range of one SCAN/ADVSCAN page
+// that starts at cursor "table:key".
+func VerifBuildScanKeyRange(storeDataType byte, cursor []byte, reverse bool) ([]byte, []byte, error) {
+	return buildScanKeyRange(storeDataType, cursor, reverse)
+}
+func VerifDecodeScanKey(storeDataType byte, ek []byte) ([]byte, error) {
+	return decodeScanKey(storeDataType, ek)
+}
+
+// VerifBuildSpecificDataScanKeyRange is the (open) engine range of one
+// HSCAN/SSCAN/ZSCAN page of the collection (table, key) (key = versioned key
+// in the wait-compact policy) that starts at cursor (a field / member).
+func VerifBuildSpecificDataScanKeyRange(dt byte, table, key, cursor []byte, reverse bool) ([]byte, []byte, error) {
+	return buildSpecificDataScanKeyRange(dt, table, key, cursor, reverse)
+}
+func VerifEncodeFullScanKey(dt byte, table, key, cursor []byte) ([]byte, error) {
+	return encodeFullScanKey(dt, table, key, cursor)
+}
+func VerifEncodeFullScanMinKey(dt byte, table, key, cursor []byte) ([]byte, error) {
+	return encodeFullScanMinKey(dt, table, key, cursor)
+}
+
+// ---- more range helpers ----
+
+func VerifEncodeJSONStartKey(table []byte) ([]byte, error) { return encodeJSONStartKey(table) }
+func VerifEncodeJSONStopKey(table []byte) []byte           { return encodeJSONStopKey(table, nil) }
+func VerifLEncodeMinKey() []byte                           { return lEncodeMinKey() }
+func VerifLEncodeMaxKey() []byte                           { return lEncodeMaxKey() }
+func VerifEncodeTableIndexMetaStartKey(itype byte) []byte  { return encodeTableIndexMetaStartKey(itype) }
+func VerifEncodeTableIndexMetaStopKey(itype byte) []byte   { return encodeTableIndexMetaStopKey(itype) }
+
+// VerifZEncodeScoreKeyX is zEncodeScoreKey with all of its flags.
+func VerifZEncodeScoreKeyX(stopKey, stopMember bool, table, key, member []byte, score float64) []byte {
+	return zEncodeScoreKey(stopKey, stopMember, table, key, member, score)
+}
+
+const (
+	VerifListMinSeq       = listMinSeq
+	VerifListMaxSeq       = listMaxSeq
+	VerifListInitialSeq   = listInitialSeq
+	VerifDefaultScanCount = defaultScanCount
+	VerifBitmapSegBytes   = bitmapSegBytes
+	VerifBitmapSegBits    = bitmapSegBits
+	VerifZsetKeySep       = zsetKeySep
+	VerifZsetScoreSep     = zsetScoreSep
+)
+
+// VerifJSep is the separator value in front of the key in a json engine key.
+func VerifJSep() byte { return jSep }
